@@ -41,7 +41,9 @@ def step (st : DSt) (j : Json) : DSt × Json :=
   | some "listing" =>
     match st, getNatList j "l" with
     | DSt.files s, some l =>
-      let (s', e) := fpoll s l
+      let (s', e) := match getNat j "fail_on" with
+        | some bad => fpollFail s l bad
+        | none => fpoll s l
       (DSt.files s', Json.mkObj [("emit", toJson e)])
     | _, _ => (st, badOp "listing")
   | _ => (st, badOp "op")
